@@ -456,7 +456,7 @@ def replay(data):
             Tidx = np.asarray(jax.vmap(jax.vmap(jax.vmap(pbx.state_to_index)))(pbx.T)).reshape(S, A, 1)
             R, P, g = np.asarray(pbx.R, dtype=float), np.asarray(pbx.P, dtype=float), float(sx.gamma)
             Q = (P * (R + g * Wx[Tidx])).sum(-1)
-            tol = 1e-7 * max(np.abs(R).max(), np.abs(Wx).max(), 1e-300)
+            tol = kit.REPLAY_RTOL * max(np.abs(R).max(), np.abs(Wx).max(), 1e-300)
             greedy = lambda pol: all(Q[j].max() - Q[j, r_] <= tol for j, r_ in enumerate(row(pol)))
             strictly_worse = lambda pol: any(Q[j].max() - Q[j, r_] > 10 * tol for j, r_ in enumerate(row(pol)))
             ret = np.asarray(st.policy)
@@ -492,7 +492,7 @@ def replay(data):
         asp = np.asarray(pb.action_space)
         pol = np.asarray(st.policy)
         idx = [int(np.where((asp == pol[j]).all(1))[0][0]) for j in range(len(pol))]
-        tol = 1e-7 * max(np.abs(R).max(), np.abs(W).max(), 1e-300)
+        tol = kit.REPLAY_RTOL * max(np.abs(R).max(), np.abs(W).max(), 1e-300)
         bad = any(abs(Q[j, idx[j]] - Q[j].max()) > tol for j in range(len(idx)))
         return bool(bad), f"returned policy rows {idx}, Q {Q.tolist()}"
     if k == "initial":
